@@ -5,13 +5,12 @@ From Coq Require Import NArith List Bool Lia.
 From LV Require Import model.VecIndex model.Abft model.AbftRun spec.ElectionSpec
   proofs.AbftDfs proofs.AbftClosedInv
   proofs.BftGraph proofs.BftRun proofs.BftMain proofs.BftAccept proofs.BftProps
-  proofs.LinkVals proofs.LinkDefs proofs.LinkStep proofs.LinkRun proofs.LinkExample proofs.LinkDeliver.
+  proofs.LinkVals proofs.LinkDefs proofs.LinkStep proofs.LinkRun proofs.LinkExample proofs.LinkFresh proofs.LinkDeliver proofs.LinkDeliverRun.
 Import ListNotations.
 Local Open Scope N_scope.
 
 Definition dx_blocks : list block :=
-  flat_map (fun o => match o with ObsP None bl _ _ => bl | _ => [] end)
-           (run 3 [] sample (start 1 ex2_vals) (abft_ops 1 (fun _ => 0) ex2_vals ex2_D)).
+  blocks_in (run 3 [] sample (start 1 ex2_vals) (abft_ops 1 (fun _ => 0) ex2_vals ex2_D)).
 Definition subset_b (l1 l2 : list N) : bool := forallb (fun x => AbftRun.mem x l2) l1.
 (* graph side: ancestry of the Atropos in the reference's table, minus what is delivered already *)
 Fixpoint dx_check (T : list node) (seen : list N) (bl : list block) : bool :=
@@ -37,4 +36,13 @@ Example dx_hyps :
 Proof.
   split; [|apply start_K].
   apply (Sim_start 1 (fun _ => 0) ex2_vals ex2_vals_ok (fun _ => False) 48 (fun a (F : False) => match F with end)). vm_compute. lia.
+Qed.
+
+(* the run-level theorem on the 48-event run *)
+Example dx_fresh : forall e, In e ex2_D -> id_fresh 48 (eid (fe e)).
+Proof. intros e He. apply fresh_b_ok. revert e He. apply Forall_forall. vm_compute. repeat constructor. Qed.
+Example dx_run_delivers : delivered_graph (table ex2_vals ex2_D) (fun _ => False) dx_blocks.
+Proof.
+  unfold dx_blocks.
+  refine (run_delivers 3 (fun _ => 0) ex2_vals ex2_vals_ok 48 ex2_D ex2_valid dx_fresh _ _); [vm_compute; discriminate | vm_compute; reflexivity].
 Qed.
